@@ -86,6 +86,9 @@ impl Updater<'_> {
         &mut utxo_cache,
       )?;
 
+      #[cfg(feature = "verif")]
+      crate::verif::points::point("update:block-indexed", self.height);
+
       if let Some(progress_bar) = &mut progress_bar {
         progress_bar.inc(1);
 
@@ -348,6 +351,9 @@ impl Updater<'_> {
         &mut outputs_in_block,
       )?;
     }
+
+    #[cfg(feature = "verif")]
+    crate::verif::points::point("block:mid", self.height);
 
     if self.index.index_runes && self.height >= self.index.settings.first_rune_height() {
       let mut outpoint_to_rune_balances = wtx.open_table(OUTPOINT_TO_RUNE_BALANCES)?;
@@ -837,6 +843,9 @@ impl Updater<'_> {
       self.outputs_cached
     );
 
+    #[cfg(feature = "verif")]
+    crate::verif::points::point("commit:start", self.height);
+
     {
       let mut outpoint_to_utxo_entry = wtx.open_table(OUTPOINT_TO_UTXO_ENTRY)?;
       let mut script_pubkey_to_outpoint = wtx.open_multimap_table(SCRIPT_PUBKEY_TO_OUTPOINT)?;
@@ -871,13 +880,21 @@ impl Updater<'_> {
     Index::increment_statistic(&wtx, Statistic::SatRanges, self.sat_ranges_since_flush)?;
     self.sat_ranges_since_flush = 0;
     Index::increment_statistic(&wtx, Statistic::Commits, 1)?;
+    #[cfg(feature = "verif")]
+    crate::verif::points::point("commit:pre-durable", self.height);
     wtx.commit()?;
+    #[cfg(feature = "verif")]
+    crate::verif::points::point("commit:post-durable", self.height);
 
     // Commit twice since due to a bug redb will only reuse pages freed in the
     // transaction before last.
     self.index.begin_write()?.commit()?;
+    #[cfg(feature = "verif")]
+    crate::verif::points::point("commit:post-empty", self.height);
 
     Reorg::update_savepoints(self.index, self.height)?;
+    #[cfg(feature = "verif")]
+    crate::verif::points::point("commit:done", self.height);
 
     Ok(())
   }
